@@ -271,6 +271,9 @@ func runC06(c *Ctx) {
 		if strings.HasPrefix(kind, "fs") {
 			c06FailedStore(c, kind, "c06")
 		}
+		if strings.HasSuffix(kind, "-dir") {
+			c06FailedStoreLong(c, kind, "c06")
+		}
 	}
 }
 
@@ -553,6 +556,9 @@ func runC14(c *Ctx) {
 	// an upload whose complete is refused by the backend stays listed
 	for _, kind := range c.kinds([]string{"fsM-mem", "fsM-dir", "fsS-mem", "fsS-dir"}) {
 		c06FailedStore(c, kind, "c14")
+	}
+	for _, kind := range c.kinds([]string{"fsM-dir", "fsS-dir"}) {
+		c06FailedStoreLong(c, kind, "c14")
 	}
 }
 
